@@ -25,7 +25,7 @@ DEFAULTS = {
     "target": "string", "sep": "comma",
 }
 DEFAULT_LAYOUT = {"point": "ads_only", "model": "constructed", "base": "na"}
-ROWKEYS = ["fmt", "cls", "pmode", "lbasis", "mbasis", "tclass", "layout", "vc", "kc", "model", "target", "sep", "matc", "ads", "rep", "mag", "rowlab"]
+ROWKEYS = ["fmt", "cls", "pmode", "lbasis", "mbasis", "tclass", "layout", "vc", "kc", "model", "target", "sep", "matc", "ads", "rep", "mag", "rowlab", "reg"]
 NOFEAT = cc._feat("none")
 
 
@@ -55,7 +55,8 @@ class Session:
         rt = cc.roundtrip(iso, row, self.tmp, again=(fmt == "json"))
         key, val = self.builder.focus(row)
         rec = {
-            "k": "judge", "fmt": fmt, "kc": row["kc"], "vc": row["vc"], "target": row["target"], "sep": row["sep"], "layout": row["layout"],
+            "k": "judge", "fmt": fmt, "kc": row["kc"], "vc": row["vc"], "target": row["target"], "sep": row["sep"], "layout": row["layout"], "reg": row.get("reg", "none"),
+            "regkeys": [cc._esc(k) for k in cc.REGISTRY_ONLY_KEYS] if row.get("reg") == "same_different" else [],
             "feat": cc.features(val, row.get("sep", "na")) if key is not None else NOFEAT,
             "focus": cc._esc(key) if key is not None else "",
             "stage": rt["stage"], "exc": rt["exc"], "pg": bool(rt["pg"]),
@@ -120,6 +121,8 @@ def variants(row):
             continue
         if row[d] != v:
             out.append((d, dict(row, **{d: v})))
+    if row.get("reg", "none") != "none":
+        out.append(("reg", dict(row, reg="none")))
     if row["cls"] != "base":
         if row["layout"] != DEFAULT_LAYOUT[row["cls"]]:
             out.append(("layout", dict(row, layout=DEFAULT_LAYOUT[row["cls"]])))
@@ -238,10 +241,10 @@ def run_codec(pid, fmts, tier, seed):
     per = {f: sum(1 for r in rows if r["fmt"] == f) for f in fmts}
     run.set(exhaustive=False,
             rule="rows enumerated by Codec!Rows per format " + str(per) + ": full products class x layout x value class (28), key class (8) x value class (27), "
-                 "model (16) x origin of the model (4), model x temperature class, model x magnitude class of its numbers (4) x {constructed, as_fitted}, point layout (21) x row labelling of the source table (5)" + (", unit configuration (54) x temperature class (5) x class, material class x adsorbate class x class, class x layout x value class x 4 key classes, "
+                 "model (16) x origin of the model (4), model x temperature class, model x magnitude class of its numbers (4) x {constructed, as_fitted}, point layout (21) x row labelling of the source table (5), class x material class x registry state at import time (3)" + (", unit configuration (54) x temperature class (5) x class, material class x adsorbate class x class, class x layout x value class x 4 key classes, "
                                                 "five orthogonal arrays instead of one" if thorough else "")
-                 + ", plus an orthogonal array (strength 2, TLC-checked) over the 16 dimensions class, pressure mode, loading basis, material basis, temperature class, "
-                 "layout, value class, key class, model, target, separator, material class, adsorbate class, representative, magnitude class, row labelling; each row = build, export, import, "
+                 + ", plus an orthogonal array (strength 2, TLC-checked) over the 17 dimensions class, pressure mode, loading basis, material basis, temperature class, "
+                 "layout, value class, key class, model, target, separator, material class, adsorbate class, representative, magnitude class, row labelling, registry state at import; each row = build, export, import, "
                  "projection of both isotherms, judged by Codec!Judge; distinct = distinct rows; non-trivial = the isotherm carries data, a model or a focus metadata entry")
     run.assume("the projection harness/codec_common.project (type tags, canonical spellings, 9-decimal fixed point) is trusted; data values beyond 2e9 are not generated")
     run.assume("value domains are read from the quantifier text; None, NaN/inf, padded text, the empty text in Excel and non-ASCII AIF keys are treated as 'preserved or refused'")
